@@ -225,6 +225,21 @@ def argmax_clause(model, rep, funcs):
             if len(subs) != 3 or any(norm_src(s.slice) != idx for s in subs):
                 ok = False
                 det.append(f"result fields are not all taken at the arg-max index: {args}")
+    if not ok:
+        # equivalent formulation: one list of per-candidate result tuples, scores read from it, every field taken from element arg-max
+        from ..match import Matcher
+        MO = Matcher(f)
+        bo: dict = {}
+        alt, _why = MO.all_of(["$res = [self._optimize($$x, ...) for $t, $m in zip(template_list, mask_list)]", "$i = int(np.argmax($$sc))",
+                               "return AlignmentResult($i, $res[$i][0], $res[$i][1], $res[$i][2])"], bo)
+        if alt:
+            e = MO._exp.canon(bo["sc"][1])
+            rx = MO._exp.canon(bo["res"][1])
+            if isinstance(e, (ast.ListComp, ast.GeneratorExp)) and len(e.generators) == 1 and ast.dump(e.generators[0].iter) == ast.dump(rx) and \
+                    isinstance(e.elt, ast.Subscript) and isinstance(e.elt.slice, ast.Constant) and e.elt.slice.value == 2 and \
+                    isinstance(e.elt.value, ast.Call) and isinstance(e.elt.value.func, ast.Name) and e.elt.value.func.id == "__elem__" and \
+                    ast.dump(e.elt.value.args[0]) == ast.dump(rx):
+                ok, det = True, []
     rep.ob("S7", f.anchor, "one score per (template, mask) candidate of the full stacks; the result is the arg-max and all its fields come from that candidate",
            ok, "; ".join(det), node=f.node, fn=f, clause="2 argmax", stmt="def _optimize_multiple")
 
